@@ -251,7 +251,7 @@ Plan gen_store_plan(const std::string &prop, uint64_t seed, int64_t run) {
             if (r.chance(1, 2)) p.steps.push_back(mk("fault", {19, R(r), R(r), R(r)}));  // trailing bytes / whitespace / zero bytes
             if (r.chance(1, 3)) add_fault(r.chance(1, 2));
             int np = (int)r.range(1, 3);
-            for (int i = 0; i < np; i++) p.steps.push_back(mk("parse", {R(r), R(r)}));
+            for (int i = 0; i < np; i++) p.steps.push_back(mk("parse", {R(r), R(r), r.chance(1, 6) ? (int64_t)r.range(1, 6) : 0}));
         }
     }
     return p;
@@ -316,15 +316,21 @@ struct StoreRun {
         const char *end = (const char *)0x1;  // sentinel: must be overwritten when wanted
         cJSON *r = nullptr;
         if (prog) prog->judged = 1;
+        long failk = (prop == "C10") ? (long)st.A(2) : 0;  // C10: the allocator refuses request k of this call (the failure clause must hold for every cause of failure)
+        asim::begin_step();
+        if (failk > 0) asim::arm_fail(failk);
         switch (entry) {
             case 0: r = cJSON_Parse(buf); break;
             case 1: r = cJSON_ParseWithOpts(buf, wantend ? &end : nullptr, req); break;
             case 2: r = cJSON_ParseWithLength(buf, n); break;
             default: r = cJSON_ParseWithLengthOpts(buf, n, wantend ? &end : nullptr, req); break;
         }
+        asim::arm_fail(0);
+        bool alloc_failed = failk > 0 && asim::fail_fired_in_step();
+        if (alloc_failed) stats.fault_counts["alloc_fail_in_parse"]++;
         const char *ep = cJSON_GetErrorPtr();
         evals++;
-        std::string ctx = " [entry " + I(entry) + (req ? " require_null_terminated" : "") + (wantend ? " return_parse_end" : "") + ((cstring || term) ? " terminated" : " unterminated") + ", " + I((int64_t)n) + " declared bytes '" + show_bytes(buffer, 100) + "', last fault " + lastfault + (cut >= 0 ? ", cut at " + I(cut) : "") + "]";
+        std::string ctx = std::string(failk > 0 ? " [allocation request " + I(failk) + " refused]" : "") + " [entry " + I(entry) + (req ? " require_null_terminated" : "") + (wantend ? " return_parse_end" : "") + ((cstring || term) ? " terminated" : " unterminated") + ", " + I((int64_t)n) + " declared bytes '" + show_bytes(buffer, 100) + "', last fault " + lastfault + (cut >= 0 ? ", cut at " + I(cut) : "") + "]";
         bool unmodified = input_unmodified(in, buffer);
         std::string verdict = r ? "tree" : "NULL";
         // ---------------- C01
@@ -401,7 +407,7 @@ struct StoreRun {
                 } else if (ep != buf) { release_input(in); violation("error-pointer-range", "after a failed parse of an empty buffer the error pointer is not the buffer start" + ctx); }
                 if (wantend && end != ep) { release_input(in); violation("error-pointer-mismatch", "return_parse_end and cJSON_GetErrorPtr() differ after a failed parse" + ctx); }
             }
-            if (req) {
+            if (req && !alloc_failed) {
                 // reference: the same bytes without the termination requirement
                 const char *end0 = nullptr;
                 cJSON *r0 = cJSON_ParseWithLengthOpts(buf, n, &end0, 0);
@@ -434,7 +440,7 @@ struct StoreRun {
             std::string lv = asim::take_violation();
             if (!lv.empty()) discard("ledger violation outside this property's oracles: " + lv);
             stats.nontrivial++;
-            stats.state_hashes.push_back(mix64(mix64((uint64_t)entry * 8 + (uint64_t)flags, hash_str(verdict + trailer_class)), hash_str(lastfault)));
+            stats.state_hashes.push_back(mix64(mix64((uint64_t)entry * 8 + (uint64_t)flags + (alloc_failed ? 64 : 0), hash_str(verdict + trailer_class)), hash_str(lastfault)));
             log.add("parse e" + I(entry) + " f" + I(flags) + " n" + I((int64_t)n) + " -> " + verdict + " trailer " + trailer_class);
         }
     }
